@@ -369,7 +369,7 @@ func (ps *parser) primary() (*Expr, error) {
 			return &Expr{Op: "bool", Bool: t.text == "true"}, nil
 		case "nil":
 			return &Expr{Op: "nil"}, nil
-		case "old":
+		case "old", "entry":
 			if err := ps.expect("("); err != nil {
 				return nil, err
 			}
@@ -380,7 +380,7 @@ func (ps *parser) primary() (*Expr, error) {
 			if err := ps.expect(")"); err != nil {
 				return nil, err
 			}
-			return &Expr{Op: "old", Args: []*Expr{a}}, nil
+			return &Expr{Op: t.text, Args: []*Expr{a}}, nil
 		case "typeis":
 			// typeis(expr, TypeText)
 			if err := ps.expect("("); err != nil {
